@@ -1,4 +1,5 @@
 """C11 - decoding device data always terminates, whatever the bytes."""
+import random
 import tracemalloc
 
 PYOPT = {"quick": 1, "thorough": 2}  # every (thorough: every second) shard also runs in the -O -W error / debug-logging configuration
@@ -197,6 +198,39 @@ def run_hostile(shard, ctx):
                   ("all_ff", lambda c, a: data_handler("all_ff", None)), ("claims_alloc", lambda c, a: data_handler("claims_alloc", None)),
                   ("claims_double", lambda c, a: data_handler("claims_double", None)), ("claims_one_more", lambda c, a: data_handler("claims_one_more", None)),
                   ("more_descriptors_than_fit", lambda c, a: data_handler("resp", response_for(c, a, rng, big=True) if c is not None else b"\x00\x00\x06\x02\xff\x00\x00\x02"))]
+    # devices whose answer depends on the command (a bridge that knows only the short commands, a target that rejects one
+    # family): each command gets one of the answers above, for ever
+    simple = dict(behaviours[:11])
+    invalid_opcode = lambda c, a: sense_handler(2, SR.build(0x70, 0, 5, 0x20, 0x00, 18))  # noqa: E731
+    invalid_field = lambda c, a: sense_handler(2, SR.build(0x72, 0, 5, 0x24, 0x00, 8))  # noqa: E731
+
+    def mixed(choose):
+        def mk(c, a):
+            hs = {}
+
+            def h(ev):
+                cdb = ev.get("cdb") or b"\x00"
+                key = choose(cdb)
+                if key not in hs:
+                    hs[key] = key(c, a)
+                return hs[key](ev)
+            return h
+        return mk
+
+    def by_length(short, long_):
+        return lambda cdb: short if len(cdb) <= 10 else long_
+
+    def by_salt(salt):
+        pool = list(simple.values()) + [invalid_opcode, invalid_field]
+        return lambda cdb: pool[random.Random("%s:%d:%d" % (salt, cdb[0], cdb[1] & 0x1F if cdb[0] in (0x9E, 0x9F, 0xA3, 0xA4, 0x5E, 0x5F, 0x7F) and len(cdb) > 1 else 0)).randrange(len(pool))]
+
+    behaviours += [("short_saturated_long_rejected", mixed(by_length(simple["all_ff"], invalid_opcode))),
+                   ("short_rejected_long_saturated", mixed(by_length(invalid_opcode, simple["all_ff"]))),
+                   ("short_claims_more_long_rejected", mixed(by_length(simple["claims_double"], invalid_opcode))),
+                   ("short_rejected_long_claims_more", mixed(by_length(invalid_field, simple["claims_double"]))),
+                   ("short_saturated_long_invalid_field", mixed(by_length(simple["all_ff"], invalid_field))),
+                   ("short_not_ready_long_saturated", mixed(by_length(simple["not_ready_becoming_ready"], simple["all_ff"])))]
+    behaviours += [("per_command_%d" % i, mixed(by_salt("%s:%d" % (ctx.seed, i)))) for i in range(6)]
     sc.bytearray = guarded
     try:
         for rep in range(shard["reps"]):
